@@ -6,6 +6,7 @@ import (
 	"encoding/base64"
 	"encoding/json"
 	"math/rand"
+	"sort"
 	"strings"
 	"time"
 
@@ -115,7 +116,12 @@ func genMalformed(c *gen.Ctx) MalformedIn {
 	case 2:
 		kind = "valid-vars-mutated"
 		// valid program, damaged variable values / missing / extra variables
+		keys := make([]string, 0, len(env.Vars))
 		for k := range env.Vars {
+			keys = append(keys, k)
+		}
+		sort.Strings(keys) // fixed order: map iteration would break seed determinism
+		for _, k := range keys {
 			switch r.Intn(4) {
 			case 0:
 				env.Vars[k] = gen.Pick(r, []string{"", "null", " null ", "-1", "USD", "USD -1", "@a", "1/0", "\x00", "[USD 1]", "{}", "1e400", "99999999999999999999999999999999999999/1"})
